@@ -1,6 +1,7 @@
 (* C09 runner: decodes a case (configuration, API calls, recorded/scripted answers of the SSL object and of the wrapped
    transport), runs the model of Conc/TlsEof.v, encodes every action and every reported result. *)
 From EN Require Import Lib.Bytes Lib.Sx Conc.TlsBase Conc.TlsPump Conc.TlsEof Gen.ParamsC09 Gen.ParamsC08.
+From EN Require Run.C08.
 Open Scope Z_scope.
 
 Definition zeros (n : nat) : bytes := repeat 0%N n.
@@ -96,6 +97,14 @@ Definition is_wait (o : sobs) : bool :=
 
 Definition run (x : sx) : sx :=
   match x with
+  (* corpus witness recorded for one state of the close_notify-after-failed-unwrap fix *)
+  | L (A 0 :: A std :: L ops :: L answers :: L _ :: A st :: _) =>
+      if Bool.eqb (Z.eqb st 1) (f_close_flush tls_flags) then
+        do ops' <- map_opt dec_op ops;
+        do ans' <- map_opt dec_ans answers;
+        let '(ob, rest) := run_ops tls_flags (Z.eqb std 1) ops' tstate0 ans' in
+        L [L (map enc_obs ob); of_nat (length rest)]
+      else L [A 777]
   | L (A 0 :: A std :: L ops :: L answers :: _) =>
       do ops' <- map_opt dec_op ops;
       do ans' <- map_opt dec_ans answers;
@@ -131,6 +140,15 @@ Definition run (x : sx) : sx :=
                               end in
       L [reduce (hd (ORes Desync) rs); reduce (last rs (ORes Desync));
          A (if nth (Z.to_nat which) client_default_ctx_clears_ignore_eof false then 0 else 1)]
+  (* recv() in one task while another task closes: the recorded multi-task trace of the pumped calls (recv, unwrap)
+     through the pump model shared with C08; tagged with the state of the C08 fixes it was recorded in *)
+  | L (A 5 :: A _ :: L labs :: L (B _ :: A flag :: _) :: _) =>
+      if Z.eqb flag ((if f_recheck tls_flags then 1 else 0) + (if f_skiplock tls_flags then 2 else 0)) then
+        match C08.run_trace labs with
+        | L (acts :: results :: _) => L [acts; results]
+        | other => other
+        end
+      else L [A 777]
   | L [A 3; A which] =>
       L [A (if nth (Z.to_nat which) client_default_ctx_clears_ignore_eof false then 0 else 1)]
   | _ => bad_input
